@@ -18,8 +18,8 @@ def main():
     if tier == "quick":
         passes = [
             {"harness": "c01", "cfg": {"faults": "0"}, "budget_s": 20, "label": W + "; no fault: " + U},
-            {"harness": "c01", "cfg": {"faults": "1", "payloads": "1", "maxidx": "4"}, "budget_s": 70,
-             "label": "1 fault: kind {cut before/inside/after a write, freeze} x direction x write index 0..3 x {enough carriers, one too few} x replacement delay {0, 10 s}: " + U},
+            {"harness": "c01", "cfg": {"faults": "1", "payloads": "1", "maxidx": "4"}, "budget_s": 75, "max_exec_per_cfg": 3000,
+             "label": "1 fault: kind {cut before/inside/after a write, freeze} x direction x write index 0..3 x {enough carriers, one too few} x replacement delay {0, 10 s}; at most 3000 executions per configuration so that the budget reaches all 128: " + U},
         ]
         total = 100
     else:
